@@ -115,7 +115,7 @@ func (n *rtNet) link(from, to uint16) chan rtFrame {
 				if atomic.AddInt32(gauge, 1) > 1 {
 					atomic.AddInt32(&n.overlaps, 1)
 				}
-				h(&tss.IncMessage{Source: f.from, MsgType: f.msgType, Topic: f.topic, Data: f.data})
+				h(&tss.IncMessage{Source: f.from, MsgType: f.msgType, Topic: append([]byte(nil), f.topic...), Data: append([]byte(nil), f.data...)})
 				atomic.AddInt32(gauge, -1)
 			}
 		}
@@ -133,9 +133,11 @@ func (n *rtNet) sendFunc(from uint16) func(msgType uint8, topic []byte, msg []by
 			if !ok {
 				continue
 			}
-			f := rtFrame{from: from, msgType: msgType, topic: append([]byte(nil), topic...), data: append([]byte(nil), msg...)}
+			// like the library's own transport, the link queues the caller's slices and reads them when the frame is
+			// written out (here: when it is delivered); a sender that reuses a buffer after Send races with that read
+			f := rtFrame{from: from, msgType: msgType, topic: topic, data: msg}
 			if tap != nil {
-				tap(dst, f)
+				tap(dst, rtFrame{from: from, msgType: msgType, topic: append([]byte(nil), topic...), data: append([]byte(nil), msg...)})
 			}
 			select {
 			case n.link(from, dst) <- f:
